@@ -24,6 +24,9 @@ type Backing interface {
 	// create makes the path exist with empty content (file semantics) and
 	// reports whether it existed before.
 	set(path string, b []byte)
+	// setIfAbsent is set unless the path exists, atomically (free-running
+	// clients rely on it); it reports whether it set.
+	setIfAbsent(path string, b []byte) bool
 	appendTo(path string, b []byte)
 	exists(path string) bool
 	del(path string) bool
@@ -60,6 +63,16 @@ func (m *Mem) set(p string, b []byte) {
 	m.mu.Lock()
 	m.files[p] = bytes.Clone(b)
 	m.mu.Unlock()
+}
+
+func (m *Mem) setIfAbsent(p string, b []byte) bool {
+	m.mu.Lock()
+	defer m.mu.Unlock()
+	if _, ok := m.files[p]; ok {
+		return false
+	}
+	m.files[p] = bytes.Clone(b)
+	return true
 }
 
 func (m *Mem) appendTo(p string, b []byte) {
@@ -536,12 +549,11 @@ func (e *Engine) PutIfNotExists(ctx context.Context, u *storage.URI, b []byte) e
 		if crash {
 			return ErrCrashed
 		}
-		if e.B.exists(u.Path) {
+		if !e.B.setIfAbsent(u.Path, b) {
 			err := error(&fs.PathError{Op: "open", Path: u.Path, Err: fs.ErrExist}) // like os.OpenFile(O_EXCL): os.IsExist(err) is true
 			e.finish(seq, err)
 			return err
 		}
-		e.B.set(u.Path, b)
 		return nil
 	}
 	seq, done, crash, _ := e.begin(ctx, "pine-create", u, 0)
@@ -549,13 +561,12 @@ func (e *Engine) PutIfNotExists(ctx context.Context, u *storage.URI, b []byte) e
 		done()
 		return ErrCrashed
 	}
-	if e.B.exists(u.Path) {
+	if !e.B.setIfAbsent(u.Path, nil) {
 		done()
 		err := error(&fs.PathError{Op: "open", Path: u.Path, Err: fs.ErrExist}) // like os.OpenFile(O_EXCL): os.IsExist(err) is true
 		e.finish(seq, err)
 		return err
 	}
-	e.B.set(u.Path, nil)
 	done()
 	_, done, crash, partial := e.begin(ctx, "pine-fill", u, len(b))
 	defer done()
